@@ -153,8 +153,9 @@ theorem addDyn_ok {s s' : PyVal} {variant arch nevra : Str} {path sigkey categor
   split at h
   · rename_i cat
     split at h; · cases h
+    split at h; · cases h
     split at h
-    · rename_i p
+    · rename_i p _
       simp only at h
       split at h
       · cases h
